@@ -35,3 +35,11 @@ func (e *EndpointInfo) VerifProbing() bool {
 	defer e.Unlock()
 	return e.cancelHealthCheck != nil
 }
+
+// VerifPickerUpstreams returns the endpoints a matched policy may pick from and its strategy (read-only).
+func VerifPickerUpstreams(p EndpointPicker) ([]string, string) {
+	if s, ok := p.(*endpointPickStrategy); ok {
+		return append([]string{}, s.upstreams...), string(s.strategy)
+	}
+	return nil, ""
+}
